@@ -14,6 +14,12 @@
 (* the two diameters is assigned, and the user may overwrite it afterwards *)
 (* (version 2, a non-additive mixture) - Resets / Needs describe that.     *)
 (*                                                                         *)
+(* A diameter or contact distance that is not a grid point does not stop   *)
+(* createPRISM / solve: check() WARNS about exactly those diameters and    *)
+(* pairs (Warnings; the code visits a cross pair in both orientations, the *)
+(* set of lengths warned about is what is specified), and the object is    *)
+(* created all the same.                                                   *)
+(*                                                                         *)
 (* createPRISM / solve on an incomplete System raise ValueError and create *)
 (* nothing; on a complete one they leave the System untouched; later edits *)
 (* never reach an existing PRISM; an edited and re-solved System yields    *)
@@ -26,6 +32,8 @@ CONSTANTS Items,        \* names of all items of the System
           Editable,     \* items the edit actions may touch
           Resets(_),    \* Resets(i): derived items that assigning item i recomputes (back to version 1 = "derived value")
           Needs(_),     \* Needs(i): items that must be set before item i can be assigned
+          Versions(_),  \* Versions(i): the version ids item i can be given
+          Warnings(_),  \* Warnings(c): what check() warns about on a complete configuration c (lengths off the grid)
           MaxMissing,   \* initial states: Systems with at most this many items unset
           MaxPrisms,
           MaxSteps
@@ -65,7 +73,8 @@ Create(solve) ==
        ELSE /\ Len(prisms) < MaxPrisms
             /\ prisms' = Append(prisms, [snap |-> cfg, solved |-> solve])
             /\ last' = [act |-> IF solve THEN "SysSolve" ELSE "CreatePRISM", raises |-> "",
-                        result |-> IF solve THEN <<"Snap", cfg>> ELSE <<>>]
+                        result |-> IF solve THEN <<"Snap", cfg>> ELSE <<>>,
+                        warns |-> Warnings(cfg)]
 
 \* PRISM.solve() on an existing, not yet solved object
 PrismSolve(n) ==
@@ -80,7 +89,7 @@ Drop ==
     /\ prisms' = Tail(prisms) /\ UNCHANGED cfg /\ steps' = steps + 1
     /\ last' = [act |-> "Drop", raises |-> ""]
 
-Next == \/ \E i \in Editable, v \in {1, 2} : Edit(i, v)
+Next == \/ \E i \in Editable : \E v \in Versions(i) : Edit(i, v)
         \/ \E s \in BOOLEAN : Create(s)
         \/ \E n \in 1 .. MaxPrisms : PrismSolve(n)
         \/ Drop
